@@ -545,9 +545,17 @@ def np_where(it, c, a=None, b=None):
     return elementwise(it.ctx, lambda cc, x, y: V.ite(cc, x, y) if is_sym(cc) else (x if cc else y), c, a, b)
 
 
-@np_fn('isclose', 'allclose')
-def np_isclose(it, *a, **k):
-    raise Unsupported('floating-point tolerance comparison (np.isclose/allclose)')
+@np_fn('isclose')
+def np_isclose(it, a, b, rtol=Fraction(1, 100000), atol=Fraction(1, 100000000), **k):
+    """|a - b| <= atol + rtol*|b|  element-wise (over the reals; NaN/inf do not exist in the model)"""
+    def f(x, y):
+        return V.cmp('<=', V.absv(V.sub(x, y)), V.add(atol, V.mul(rtol, V.absv(y))))
+    return elementwise(it.ctx, f, a, b, kind='bool')
+
+
+@np_fn('allclose')
+def np_allclose(it, a, b, rtol=Fraction(1, 100000), atol=Fraction(1, 100000000), **k):
+    return np_all(it, np_isclose(it, a, b, rtol, atol))
 
 
 @np_fn('isfinite')
